@@ -138,7 +138,7 @@ def optimal_expanded(snap, point, tag, student_vars):
     return z3.And(fs)
 
 
-def forall(qs, body, qe_ms=4000):
+def forall(qs, body, qe_ms=3000):
     """ForAll(qs, body), with the quantifier eliminated by z3's qe tactic when
     that finishes within the budget (the result is then quantifier-free)."""
     if not qs:
